@@ -15,6 +15,8 @@ def build(tier, seed):
     import repairgen
     for sh, lv in ((['REPbad', 'BLK'], 1), (['REP', 'BLKbad'], 2)):
         J.append(repairgen.job('C19', sh, lv, timeout=1800 if tier == 'quick' else 7200))
+    import C10_info
+    J += [j for j in C10_info.record_jobs('C19', tier) if '/f/blocks2-run1/hash16' in j.name]
     return dict(jobs=J, bounds={'block': 64, 'disks': 2},
         assumptions=['memhash = injective uninterpreted function (keyed by kind and seed)', 'hash table lookup replaced by the real compare callback on one candidate', 'state_sync protocol with recorder callees'],
         trusted=['cbmc 6.11.0', 'kissat', 'stubs'],
